@@ -68,6 +68,54 @@ theorem maxAlign_ge (sub : Option Nat) (l : List InSec) : 1 ≤ maxAlign sub l :
   | nil => intro m hm; exact hm
   | cons i rest ih => intro m hm; exact ih _ (Nat.le_trans hm (Nat.le_max_left _ _))
 
+theorem step_outer_syms (objs : List InSec) (l : Line) (hl : OuterLine l) (st : St) (ho : Outside st) (r : List Line) (n : Str)
+    (hn : symOf l ≠ some n) : lookupLast n (step objs st l r).syms = lookupLast n st.syms := by
+  cases hl with
+  | blank => simp [step]
+  | sym s e p h lk hs =>
+    rw [step_assign_sym objs st s e p h lk r hs ho.nd]
+    simp only [lookupLast_snoc]
+    have : s ≠ n := fun e' => hn (by subst e'; simp [symOf, hs])
+    simp [this]
+
+theorem run_outer_keeps (objs : List InSec) (n : Str) : ∀ (ls : List Line) (_ : ∀ l ∈ ls, OuterLine l)
+    (_ : ∀ l ∈ ls, symOf l ≠ some n) (st : St) (_ : Outside st) (k : List Line),
+    lookupLast n (execK objs st ls k).syms = lookupLast n st.syms := by
+  intro ls
+  induction ls with
+  | nil => intro _ _ st _ k; rfl
+  | cons l rest ih =>
+    intro hall hno st ho k
+    obtain ⟨o1, _, _, _⟩ := step_outer objs l (hall l List.mem_cons_self) st ho (rest ++ k)
+    simp only [execK]
+    rw [ih (fun x hx => hall x (List.mem_cons_of_mem _ hx)) (fun x hx => hno x (List.mem_cons_of_mem _ hx)) _ o1 k]
+    exact step_outer_syms objs l (hall l List.mem_cons_self) st ho _ n (hno l List.mem_cons_self)
+
+theorem inner_ne_close (sty : Style) (wild : Bool) (l : Line) (h : InnerLine sty wild l) : l ≠ .blockClose := by
+  cases h with
+  | body hb => cases hb <;> simp [linkerSym]
+  | blank => simp
+  | alignDot a => simp [alignSymbol]
+  | gp off p h => simp
+  | symDot s hs => simp [linkerSym]
+  | symSize s a b hs => simp [linkerSym]
+
+theorem blockBody_prefix : ∀ (a b : List Line), (∀ l ∈ a, l ≠ .blockClose) → blockBody (a ++ .blockClose :: b) = a := by
+  intro a
+  induction a with
+  | nil => intro b _; simp [blockBody]
+  | cons x xs ih =>
+    intro b h
+    have hx : x ≠ .blockClose := h x List.mem_cons_self
+    have := ih b (fun l hl => h l (List.mem_cons_of_mem _ hl))
+    cases x <;> simp_all [blockBody]
+
+theorem hasSymbol_of_mem (body : List Line) (l : Line) (hl : l ∈ body) (hs : (symOf l).isSome) : hasSymbol body = true := by
+  unfold hasSymbol
+  rw [List.any_eq_true]
+  refine ⟨l, hl, ?_⟩
+  cases l <;> simp_all [symOf]
+
 /-- the core of `section_image`, for any lines of the shape
 `outer symbols; header; {; (nothing that acts); inner statements; }; outer symbols`. -/
 theorem section_core (objs : List InSec) (sty : Style) (wild : Bool) (ks ke fill body : List Line)
@@ -78,12 +126,17 @@ theorem section_core (objs : List InSec) (sty : Style) (wild : Bool) (ks ke fill
     ∃ (start end_ al : Nat) (new : List Placed) (st' : St),
       st' = execK objs st (ks ++ [Line.outHdr name nl addr lma sub, Line.blockOpen] ++ fill ++ body ++ [Line.blockClose] ++ ke) k ∧
       1 ≤ al ∧
-      (∀ a, addr = some a → ∃ st₁ : St, st₁.dot = st.dot ∧ start = (operand st₁ a).getD st.dot) ∧
+      (∀ a, addr = some a → ∃ st₁ : St, st₁.dot = st.dot ∧ st₁.secs = st.secs ∧
+        (∀ n, (∀ l ∈ ks, symOf l ≠ some n) → lookupLast n st₁.syms = lookupLast n st.syms) ∧
+        start = (operand st₁ a).getD st.dot) ∧
       (addr = none → start = Ld.alignUp st.dot al) ∧
       start ≤ end_ ∧ Outside st' ∧
       st'.placed = st.placed ++ new ∧ chainOk name start new end_ ∧ alignedAll sub new ∧
       ((st'.dot = end_ ∧ ∃ lmaV, st'.secs = st.secs ++ [⟨name, start, end_ - start, lmaV, nl, al⟩]) ∨
-       (end_ = start ∧ st'.dot = st.dot ∧ st'.secs = st.secs)) := by
+       (end_ = start ∧ st'.dot = st.dot ∧ st'.secs = st.secs ∧
+        ¬ ((∀ l ∈ fill, l ≠ Line.blockClose) ∧ ∃ l ∈ body, (symOf l).isSome))) ∧
+      (∀ n, (∀ l ∈ ks, symOf l ≠ some n) → (∀ l ∈ body, symOf l ≠ some n) → (∀ l ∈ ke, symOf l ≠ some n) →
+        lookupLast n st'.syms = lookupLast n st.syms) := by
   have e1 : execK objs st (ks ++ [Line.outHdr name nl addr lma sub, Line.blockOpen] ++ fill ++ body ++ [Line.blockClose] ++ ke) k
       = execK objs (execK objs (execK objs (execK objs (execK objs st ks
             ([Line.outHdr name nl addr lma sub, Line.blockOpen] ++ (fill ++ (body ++ ([Line.blockClose] ++ (ke ++ k))))))
@@ -97,20 +150,22 @@ theorem section_core (objs : List InSec) (sty : Style) (wild : Bool) (ks ke fill
   generalize h1 : execK objs st ks _ = st1 at *
   -- the header
   generalize hk2 : (fill ++ (body ++ ([Line.blockClose] ++ (ke ++ k)))) = k2 at e1
-  have e2 : ∃ (al start : Nat) (keep : Bool), 1 ≤ al ∧
+  have e2 : ∃ (al start : Nat) (keep : Bool), 1 ≤ al ∧ keep = hasSymbol (blockBody (Line.blockOpen :: k2)) ∧
       start = hdrStart st1 addr al ∧
       execK objs st1 [Line.outHdr name nl addr lma sub, Line.blockOpen] k2
         = { st1 with dot := start, cur := some ⟨name, start, lma.bind (operand st1), nl, sub, al, st1.dot, keep⟩ } := by
     refine ⟨maxAlign sub (willTake objs st1 (blockBody ([Line.blockOpen] ++ k2)) []), _,
-      hasSymbol (blockBody ([Line.blockOpen] ++ k2)), maxAlign_ge sub _, rfl, ?_⟩
+      hasSymbol (blockBody ([Line.blockOpen] ++ k2)), maxAlign_ge sub _, rfl, rfl, ?_⟩
     simp only [execK, step, List.nil_append, List.cons_append]
-  obtain ⟨al, start, keep, hal1, hstart, e2⟩ := e2
+  obtain ⟨al, start, keep, hal1, hkeepdef, hstart, e2⟩ := e2
   generalize hc : (⟨name, start, lma.bind (operand st1), nl, sub, al, st1.dot, keep⟩ : Cur) = c at e2
   have hcn : c.name = name := by rw [← hc]
   have hca : c.addr = start := by rw [← hc]
   have hcd : c.dot0 = st1.dot := by rw [← hc]
   have hcnl : c.noload = nl := by rw [← hc]
   have hcal : c.align = al := by rw [← hc]
+  have hck : c.keep = keep := by rw [← hc]
+  have hsy1 : st1.syms = st1.syms := rfl
   generalize h2 : execK objs st1 [Line.outHdr name nl addr lma sub, Line.blockOpen] k2 = st2 at *
   have in2 : Inside c st2 := by rw [e2]; exact ⟨rfl, by rw [hca]; exact Nat.le_refl _, o1.nd⟩
   -- the statements between the braces
@@ -123,10 +178,17 @@ theorem section_core (objs : List InSec) (sty : Style) (wild : Bool) (ks ke fill
   have hp2 : st2.placed = st.placed := by rw [e2]; exact p1
   have hs2 : st2.secs = st.secs := by rw [e2]; exact s1
   rw [hd2, hcn] at hchain
-  have hstartA : ∀ a, addr = some a → ∃ st₁ : St, st₁.dot = st.dot ∧ start = (operand st₁ a).getD st.dot := by
+  have hstartA : ∀ a, addr = some a → ∃ st₁ : St, st₁.dot = st.dot ∧ st₁.secs = st.secs ∧
+      (∀ n, (∀ l ∈ ks, symOf l ≠ some n) → lookupLast n st₁.syms = lookupLast n st.syms) ∧
+      start = (operand st₁ a).getD st.dot := by
     intro a ha
     subst ha
-    refine ⟨st1, d1, ?_⟩
+    refine ⟨st1, d1, s1, ?_, ?_⟩
+    · intro n hn
+      have k1 := run_outer_keeps objs n ks hks hn st ho
+        ([Line.outHdr name nl (some a) lma sub, Line.blockOpen] ++ (fill ++ (body ++ ([Line.blockClose] ++ (ke ++ k)))))
+      rw [h1] at k1
+      exact k1
     simp only [hdrStart] at hstart
     rw [hstart, d1]
     cases operand st1 a <;> rfl
@@ -135,6 +197,30 @@ theorem section_core (objs : List InSec) (sty : Style) (wild : Bool) (ks ke fill
     subst ha
     simp only [hdrStart] at hstart
     rw [hstart, d1]
+  -- symbols nobody assigns are kept
+  have hsyms3 : ∀ n, (∀ l ∈ ks, symOf l ≠ some n) → (∀ l ∈ body, symOf l ≠ some n) →
+      lookupLast n st3.syms = lookupLast n st.syms := by
+    intro n hn1 hn2
+    have k1 := run_outer_keeps objs n ks hks hn1 st ho
+      ([Line.outHdr name nl addr lma sub, Line.blockOpen] ++ (fill ++ (body ++ ([Line.blockClose] ++ (ke ++ k)))))
+    rw [h1] at k1
+    have k3 := run_inner_keeps objs sty wild c n body hbody hn2 st2 in2 ([Line.blockClose] ++ (ke ++ k))
+    rw [h3] at k3
+    rw [k3, e2]; exact k1
+  -- a section with a symbol inside is never removed
+  have hkept : (∀ l ∈ fill, l ≠ Line.blockClose) → (∃ l ∈ body, (symOf l).isSome) → keep = true := by
+    intro hf ⟨l, hl, hs⟩
+    rw [hkeepdef, ← hk2]
+    have : Line.blockOpen :: (fill ++ (body ++ ([Line.blockClose] ++ (ke ++ k))))
+        = (Line.blockOpen :: (fill ++ body)) ++ Line.blockClose :: (ke ++ k) := by simp
+    rw [this, blockBody_prefix _ _ (by
+      intro x hx
+      rcases List.mem_cons.1 hx with rfl | hx
+      · simp
+      · rcases List.mem_append.1 hx with hx | hx
+        · exact hf x hx
+        · exact inner_ne_close sty wild x (hbody x hx))]
+    exact hasSymbol_of_mem _ l (List.mem_cons_of_mem _ (List.mem_append_right _ hl)) hs
   -- the closing brace
   by_cases hrm : (!c.keep && decide (st3.dot = c.addr)) = true
   · -- removed
@@ -146,24 +232,35 @@ theorem section_core (objs : List InSec) (sty : Style) (wild : Bool) (ks ke fill
     have hsz : st3.dot = start := by
       simp only [Bool.and_eq_true, decide_eq_true_eq] at hrm
       rw [← hca]; exact hrm.2
-    refine ⟨start, start, al, new, _, rfl, hal1, hstartA, hstartN, Nat.le_refl _, ?_, ?_, ?_, halg, Or.inr ⟨rfl, ?_, ?_⟩⟩
+    refine ⟨start, start, al, new, _, rfl, hal1, hstartA, hstartN, Nat.le_refl _, ?_, ?_, ?_, halg, Or.inr ⟨rfl, ?_, ?_, ?_⟩, ?_⟩
     · rw [e1, e4]; exact o5
     · rw [e1, e4, p5]; simp only []; rw [hnew, hp2]
     · rw [hsz] at hchain; exact hchain
     · rw [e1, e4, d5]; simp only []; rw [hcd]; exact d1
     · rw [e1, e4, s5]; simp only []; rw [a3.secs, hs2]
+    · intro ⟨hf, hex⟩
+      have := hkept hf hex
+      simp only [Bool.and_eq_true, Bool.not_eq_true', decide_eq_true_eq] at hrm
+      rw [hck, this] at hrm
+      exact absurd hrm.1 (by simp)
+    · intro n hn1 hn2 hn3
+      rw [e1, e4]
+      exact (run_outer_keeps objs n ke hke hn3 { st3 with cur := none, dot := c.dot0, emptied := true } ⟨rfl, a3.inside.nd⟩ k).trans (hsyms3 n hn1 hn2)
   · -- recorded
     have e4 : execK objs st3 [Line.blockClose] (ke ++ k) = { st3 with cur := none, secs := st3.secs ++ [closedSec c st3.dot] } := by
       simp only [execK, step, a3.inside.cur, List.nil_append]
       rw [if_neg hrm]
     obtain ⟨o5, d5, s5, p5⟩ := run_outer objs _ hke { st3 with cur := none, secs := st3.secs ++ [closedSec c st3.dot] }
       ⟨rfl, a3.inside.nd⟩ k
-    refine ⟨start, st3.dot, al, new, _, rfl, hal1, hstartA, hstartN, ?_, ?_, ?_, hchain, halg, Or.inl ⟨?_, c.lma, ?_⟩⟩
+    refine ⟨start, st3.dot, al, new, _, rfl, hal1, hstartA, hstartN, ?_, ?_, ?_, hchain, halg, Or.inl ⟨?_, c.lma, ?_⟩, ?_⟩
     · have := a3.mono; omega
     · rw [e1, e4]; exact o5
     · rw [e1, e4, p5]; simp only []; rw [hnew, hp2]
     · rw [e1, e4, d5]
     · rw [e1, e4, s5]; simp only [closedSec]; rw [a3.secs, hs2, hcn, hca, hcnl, hcal]
+    · intro n hn1 hn2 hn3
+      rw [e1, e4]
+      exact (run_outer_keeps objs n ke hke hn3 { st3 with cur := none, secs := st3.secs ++ [closedSec c st3.dot] } ⟨rfl, a3.inside.nd⟩ k).trans (hsyms3 n hn1 hn2)
 
 /-- `writeSegment_shape` with the optional `FILL` line as a list of its own. -/
 theorem writeSegment_shape' (cx : Ctx) (seg : Segment) (secs : List Str) (noload : Bool) (ls : List Line)
@@ -190,7 +287,9 @@ theorem section_image (objs : List InSec) (cx : Ctx) (seg : Segment) (secs : Lis
       name = (if noload then c!"." ++ seg.name ++ c!".noload" else c!"." ++ seg.name) ∧
       addr = (if noload then none else segAddr cx seg) ∧
       1 ≤ al ∧
-      (∀ a, addr = some a → ∃ st₁ : St, st₁.dot = st.dot ∧ start = (operand st₁ a).getD st.dot) ∧
+      (∀ a, addr = some a → ∃ st₁ : St, st₁.dot = st.dot ∧ st₁.secs = st.secs ∧
+        (∀ n, (∀ l ∈ kindStart cx seg noload, symOf l ≠ some n) → lookupLast n st₁.syms = lookupLast n st.syms) ∧
+        start = (operand st₁ a).getD st.dot) ∧
       (addr = none → start = Ld.alignUp st.dot al) ∧
       start ≤ end_ ∧ Outside st' ∧
       st'.placed = st.placed ++ new ∧ chainOk name start new end_ ∧ alignedAll seg.subalign new ∧
@@ -203,21 +302,212 @@ theorem section_image (objs : List InSec) (cx : Ctx) (seg : Segment) (secs : Lis
     rcases hfill with rfl | ⟨v, rfl⟩ <;> simp [execK, step]
   cases noload with
   | false =>
-    obtain ⟨start, end_, al, new, st', h1, h2, h3, h4, h5, h6, h7, h8, h9, h10⟩ :=
+    obtain ⟨start, end_, al, new, st', h1, h2, h3, h4, h5, h6, h7, h8, h9, h10, _⟩ :=
       section_core objs cx.d.settings.style seg.wildcardSections (kindStart cx seg false) (kindEnd cx seg false)
         fill body
         (c!"." ++ seg.name) false (segAddr cx seg) (some (cx.d.settings.style.segRomStart seg.name)) seg.subalign
         (kindStart_outer cx seg false) (kindEnd_outer cx seg false) hfillno hbody st ho k
-    refine ⟨start, end_, al, new, st', _, _, ?_, rfl, rfl, h2, h3, h4, h5, h6, h7, h8, h9, h10⟩
+    refine ⟨start, end_, al, new, st', _, _, ?_, rfl, rfl, h2, h3, h4, h5, h6, h7, h8, h9, h10.imp id (fun x => ⟨x.1, x.2.1, x.2.2.1⟩)⟩
     rw [h1]; simp [segmentStart]
   | true =>
-    obtain ⟨start, end_, al, new, st', h1, h2, h3, h4, h5, h6, h7, h8, h9, h10⟩ :=
+    obtain ⟨start, end_, al, new, st', h1, h2, h3, h4, h5, h6, h7, h8, h9, h10, _⟩ :=
       section_core objs cx.d.settings.style seg.wildcardSections (kindStart cx seg true) (kindEnd cx seg true)
         fill body
         (c!"." ++ seg.name ++ c!".noload") true none none seg.subalign
         (kindStart_outer cx seg true) (kindEnd_outer cx seg true) hfillno hbody st ho k
-    refine ⟨start, end_, al, new, st', _, _, ?_, rfl, rfl, h2, h3, h4, h5, h6, h7, h8, h9, h10⟩
+    refine ⟨start, end_, al, new, st', _, _, ?_, rfl, rfl, h2, h3, h4, h5, h6, h7, h8, h9, h10.imp id (fun x => ⟨x.1, x.2.1, x.2.2.1⟩)⟩
     rw [h1]; simp [segmentStart]
+
+/-! ### a section with configured sections holds a symbol, so it is always recorded -/
+
+theorem sectionLoop_first (f : Str → R (List Line)) (a : Str) (l : List Str) (r : List Line)
+    (h : sectionLoop f (a :: l) = .ok r) : ∃ rs, f a = .ok rs ∧ ∀ x ∈ rs, x ∈ r := by
+  cases l with
+  | nil => simp only [sectionLoop] at h; exact ⟨r, h, fun x hx => hx⟩
+  | cons b bs =>
+    simp only [sectionLoop] at h
+    split at h
+    · contradiction
+    · rename_i ra hra
+      split at h
+      · contradiction
+      · rename_i rb hrb
+        injection h with h
+        subst h
+        exact ⟨ra, hra, fun x hx => by simp [hx]⟩
+
+/-- `writeSegment_shape'`, and when a section is configured and section symbols are written,
+one of the inner statements assigns a symbol. -/
+theorem writeSegment_shape'' (cx : Ctx) (seg : Segment) (secs : List Str) (noload : Bool) (ls : List Line)
+    (h : writeSegment cx seg secs noload = .ok ls) :
+    ∃ fill body, ls = segmentStart cx seg noload ++ fill ++ body ++ [.blockClose] ++ kindEnd cx seg noload ∧
+      (fill = [] ∨ ∃ v, fill = [Line.fill v]) ∧
+      (∀ l ∈ body, InnerLine cx.d.settings.style seg.wildcardSections l) ∧
+      (secs ≠ [] → cx.emitSecSyms = true → ∃ l ∈ body, (symOf l).isSome) := by
+  have hsh := writeSegment_shape' cx seg secs noload ls h
+  unfold writeSegment at h
+  split at h
+  · contradiction
+  · rename_i body hbody
+    injection h with h
+    refine ⟨(match seg.fillValue with | some v => [Line.fill v] | none => []), body, h.symm, ?_, ?_, ?_⟩
+    · cases seg.fillValue
+      · exact Or.inl rfl
+      · exact Or.inr ⟨_, rfl⟩
+    · obtain ⟨f2, b2, hls2, _, hb2⟩ := hsh
+      -- the inner lines are those of the shape lemma: same list by the same computation
+      intro l hl
+      rcases sectionLoop_mem _ _ _ hbody l hl with h1 | ⟨s', _, rs, hrs, hls⟩
+      · subst h1; exact .blank
+      · split at hrs
+        · contradiction
+        · rename_i b hb
+          injection hrs with hrs
+          subst hrs
+          simp only [List.mem_append] at hls
+          rcases hls with (hls | hls) | hls
+          · exact sectionSymStart_inner cx seg s' l hls
+          · exact .body (emitSection_body cx seg s' secs b hb l hls)
+          · exact sectionSymEnd_inner cx seg s' l hls
+    · intro hne hsy
+      cases secs with
+      | nil => exact absurd rfl hne
+      | cons a rest =>
+        obtain ⟨rs, hrs, hsub⟩ := sectionLoop_first _ a rest body hbody
+        split at hrs
+        · contradiction
+        · rename_i b hb
+          injection hrs with hrs
+          subst hrs
+          refine ⟨linkerSym (cx.d.settings.style.secStart seg.name a) .dot, hsub _ ?_, ?_⟩
+          · rw [groupStart_eq cx seg a hsy]; simp
+          · simp [symOf, linkerSym, endsOk_ne_dot _ (secStart_ok _ _ _)]
+
+/-- `section_image` for a section list that is not empty (and section symbols on): the output
+section is always recorded. -/
+theorem section_image_kept (objs : List InSec) (cx : Ctx) (seg : Segment) (secs : List Str) (noload : Bool) (ls : List Line)
+    (h : writeSegment cx seg secs noload = .ok ls) (hne : secs ≠ []) (hsy : cx.emitSecSyms = true)
+    (st : St) (ho : Outside st) (k : List Line) :
+    ∃ (start end_ al : Nat) (new : List Placed) (st' : St) (name : Str) (addr : Option Str) (lmaV : Option Nat),
+      st' = execK objs st ls k ∧
+      name = (if noload then c!"." ++ seg.name ++ c!".noload" else c!"." ++ seg.name) ∧
+      addr = (if noload then none else segAddr cx seg) ∧
+      1 ≤ al ∧
+      (∀ a, addr = some a → ∃ st₁ : St, st₁.dot = st.dot ∧ st₁.secs = st.secs ∧
+        (∀ n, (∀ l ∈ kindStart cx seg noload, symOf l ≠ some n) → lookupLast n st₁.syms = lookupLast n st.syms) ∧
+        start = (operand st₁ a).getD st.dot) ∧
+      (addr = none → start = Ld.alignUp st.dot al) ∧
+      start ≤ end_ ∧ Outside st' ∧
+      st'.placed = st.placed ++ new ∧ chainOk name start new end_ ∧ alignedAll seg.subalign new ∧
+      st'.dot = end_ ∧ st'.secs = st.secs ++ [⟨name, start, end_ - start, lmaV, noload, al⟩] := by
+  obtain ⟨fill, body, hls, hfill, hbody, hsym⟩ := writeSegment_shape'' cx seg secs noload ls h
+  subst hls
+  have hfillno : ∀ (s : St) (kk : List Line), execK objs s fill kk = s := by
+    intro s kk
+    rcases hfill with rfl | ⟨v, rfl⟩ <;> simp [execK, step]
+  have hfillnc : ∀ l ∈ fill, l ≠ Line.blockClose := by
+    intro l hl
+    rcases hfill with rfl | ⟨v, rfl⟩
+    · cases hl
+    · simp at hl; subst hl; simp
+  cases noload with
+  | false =>
+    obtain ⟨start, end_, al, new, st', h1, h2, h3, h4, h5, h6, h7, h8, h9, h10, _⟩ :=
+      section_core objs cx.d.settings.style seg.wildcardSections (kindStart cx seg false) (kindEnd cx seg false)
+        fill body
+        (c!"." ++ seg.name) false (segAddr cx seg) (some (cx.d.settings.style.segRomStart seg.name)) seg.subalign
+        (kindStart_outer cx seg false) (kindEnd_outer cx seg false) hfillno hbody st ho k
+    rcases h10 with ⟨hd, lmaV, hs⟩ | ⟨_, _, _, hno⟩
+    · refine ⟨start, end_, al, new, st', _, _, lmaV, ?_, rfl, rfl, h2, h3, h4, h5, h6, h7, h8, h9, hd, hs⟩
+      rw [h1]; simp [segmentStart]
+    · exact absurd ⟨hfillnc, hsym hne hsy⟩ hno
+  | true =>
+    obtain ⟨start, end_, al, new, st', h1, h2, h3, h4, h5, h6, h7, h8, h9, h10, _⟩ :=
+      section_core objs cx.d.settings.style seg.wildcardSections (kindStart cx seg true) (kindEnd cx seg true)
+        fill body
+        (c!"." ++ seg.name ++ c!".noload") true none none seg.subalign
+        (kindStart_outer cx seg true) (kindEnd_outer cx seg true) hfillno hbody st ho k
+    rcases h10 with ⟨hd, lmaV, hs⟩ | ⟨_, _, _, hno⟩
+    · refine ⟨start, end_, al, new, st', _, _, lmaV, ?_, rfl, rfl, h2, h3, h4, h5, h6, h7, h8, h9, hd, hs⟩
+      rw [h1]; simp [segmentStart]
+    · exact absurd ⟨hfillnc, hsym hne hsy⟩ hno
+
+/-! ### the ROM counter through one output section -/
+
+def romPos : Str := c!"__romPos"
+
+theorem romPos_last : romPos.getLast? = some 's' := by decide
+
+theorem ne_romPos {s : Str} (h : endsOk s) : s ≠ romPos := endsOk_ne s romPos h romPos_last
+
+theorem romPos_ne_dot : romPos ≠ c!"." := by decide
+
+theorem inner_not_romPos (sty : Style) (wild : Bool) (l : Line) (h : InnerLine sty wild l) : symOf l ≠ some romPos := by
+  cases h with
+  | body hb =>
+    cases hb with
+    | input k p m s => simp [symOf]
+    | pad n => simp [symOf]
+    | offset nm =>
+      have := ne_romPos (linkerOffset_ok sty nm)
+      have h2 := endsOk_ne_dot _ (linkerOffset_ok sty nm)
+      simp [symOf, linkerSym, this, h2]
+  | blank => simp [symOf]
+  | alignDot a => simp [symOf, alignSymbol]
+  | gp off p h => simp [symOf, gp_ne_dot]; decide
+  | symDot s hs => simp [symOf, linkerSym, endsOk_ne_dot _ hs, ne_romPos hs]
+  | symSize s a b hs => simp [symOf, linkerSym, endsOk_ne_dot _ hs, ne_romPos hs]
+
+theorem kindStart_not_romPos (cx : Ctx) (seg : Segment) (nl : Bool) : ∀ l ∈ kindStart cx seg nl, symOf l ≠ some romPos := by
+  intro l hl
+  unfold kindStart at hl
+  split at hl
+  · simp at hl
+    rcases hl with rfl | rfl
+    · simp [symOf, linkerSym, endsOk_ne_dot _ (segVramStart_ok _ _), ne_romPos (segVramStart_ok _ _)]
+    · simp [symOf]
+  · simp at hl
+
+theorem kindEnd_not_romPos (cx : Ctx) (seg : Segment) (nl : Bool) : ∀ l ∈ kindEnd cx seg nl, symOf l ≠ some romPos := by
+  intro l hl
+  unfold kindEnd at hl
+  split at hl
+  · simp [symEndSize] at hl
+    rcases hl with rfl | rfl | rfl
+    · simp [symOf]
+    · simp [symOf, linkerSym, endsOk_ne_dot _ (segVramEnd_ok _ _), ne_romPos (segVramEnd_ok _ _)]
+    · simp [symOf, linkerSym, endsOk_ne_dot _ (segVramSize_ok _ _), ne_romPos (segVramSize_ok _ _)]
+  · simp at hl
+
+/-- **an output section of a segment never touches the ROM counter**, and a section that
+holds a symbol is recorded when it closes. -/
+theorem section_image_rom (objs : List InSec) (cx : Ctx) (seg : Segment) (secs : List Str) (noload : Bool) (ls : List Line)
+    (h : writeSegment cx seg secs noload = .ok ls) (st : St) (ho : Outside st) (k : List Line) :
+    lookupLast romPos (execK objs st ls k).syms = lookupLast romPos st.syms := by
+  obtain ⟨fill, body, hls, hfill, hbody⟩ := writeSegment_shape' cx seg secs noload ls h
+  subst hls
+  have hfillno : ∀ (s : St) (kk : List Line), execK objs s fill kk = s := by
+    intro s kk
+    rcases hfill with rfl | ⟨v, rfl⟩ <;> simp [execK, step]
+  cases noload with
+  | false =>
+    obtain ⟨start, end_, al, new, st', h1, _, _, _, _, _, _, _, _, _, hk⟩ :=
+      section_core objs cx.d.settings.style seg.wildcardSections (kindStart cx seg false) (kindEnd cx seg false)
+        fill body
+        (c!"." ++ seg.name) false (segAddr cx seg) (some (cx.d.settings.style.segRomStart seg.name)) seg.subalign
+        (kindStart_outer cx seg false) (kindEnd_outer cx seg false) hfillno hbody st ho k
+    have := hk romPos (kindStart_not_romPos cx seg false) (fun l hl => inner_not_romPos _ _ l (hbody l hl)) (kindEnd_not_romPos cx seg false)
+    rw [h1] at this
+    simpa [segmentStart] using this
+  | true =>
+    obtain ⟨start, end_, al, new, st', h1, _, _, _, _, _, _, _, _, _, hk⟩ :=
+      section_core objs cx.d.settings.style seg.wildcardSections (kindStart cx seg true) (kindEnd cx seg true)
+        fill body
+        (c!"." ++ seg.name ++ c!".noload") true none none seg.subalign
+        (kindStart_outer cx seg true) (kindEnd_outer cx seg true) hfillno hbody st ho k
+    have := hk romPos (kindStart_not_romPos cx seg true) (fun l hl => inner_not_romPos _ _ l (hbody l hl)) (kindEnd_not_romPos cx seg true)
+    rw [h1] at this
+    simpa [segmentStart] using this
 
 end Ld
 end Slinky
